@@ -894,13 +894,20 @@ class UnionByTypeMethod(DeserializationMethod):
     method_by_cls: Dict[type, DeserializationMethod]
 
     def deserialize(self, data: Any) -> Any:
+        data_cls = type(data)
+        if data_cls not in self.method_by_cls:
+            # instances of subclasses (e.g. OrderedDict) are accepted by the alternatives
+            # alone, bool being not considered as an int
+            for cls in self.method_by_cls:
+                if isinstance(data, cls) and data_cls is not bool:
+                    data_cls = cls
+                    break
+            else:
+                raise bad_type(data, *self.method_by_cls)
         try:
-            method: DeserializationMethod = self.method_by_cls[type(data)]
-            return method.deserialize(data)
-        except KeyError:
-            raise bad_type(data, *self.method_by_cls) from None
+            return self.method_by_cls[data_cls].deserialize(data)
         except ValidationError as err:
-            other_classes = (cls for cls in self.method_by_cls if cls is not type(data))
+            other_classes = (cls for cls in self.method_by_cls if cls is not data_cls)
             raise merge_errors(err, bad_type(data, *other_classes))
 
 
